@@ -48,6 +48,7 @@ Definition fproj_err (e : ekind) : serr :=
   | EFileExists | EC_FileExists => X_EXIST
   | ENoSuchDir | ENoSuchFile => X_NOENT
   | EG_NegativeOffset => X_NegOff
+  | EG_WriteAtInAppendMode => X_AppendWriteAt
   | _ => X_Other
   end.
 
@@ -69,7 +70,6 @@ Definition fproj_res (r : res) : sres :=
 
 (* ---- known deviations of MemFile / MemFS from os.File ------------------------- *)
 Inductive finding :=
-| KfWriteAtAppend        (* WriteAt on an O_APPEND handle is carried out; os.File refuses it *)
 (* directory handles *)
 | KfDirRestart           (* after io.EOF or ReadDir(n<=0) the next read starts the listing again; os stays at the end *)
 | KfDirAllAfterPartial   (* ReadDir(n<=0) after a partial read returns ALL entries; os returns the remaining ones *)
@@ -78,7 +78,7 @@ Inductive finding :=
 
 Definition finding_id (k : finding) : N :=
   match k with
-  | KfWriteAtAppend => 7 | KfDirRestart => 21 | KfDirAllAfterPartial => 22 | KfDirMixedCursors => 23 | KfDirSeek => 24
+  | KfDirRestart => 21 | KfDirAllAfterPartial => 22 | KfDirMixedCursors => 23 | KfDirSeek => 24
   end%N.
 
 Definition open_on (st : fstate) (i : nat) : bool :=
@@ -90,15 +90,9 @@ Definition fd_get (st : fstate) (fd : nat) : option (ofd * inode) :=
   | None => None
   end.
 
-Definition kf02 (st : fstate) (op : fop) : option finding :=
-  match op with
-  | WriteAt fd b off =>
-      match fd_get st fd with
-      | Some (o, _) => if o_app o then Some KfWriteAtAppend else None
-      | None => None
-      end
-  | _ => None
-  end.
+(* every known deviation of the handle operations has been repaired in /repo: nothing is classified any more,
+   a deviation from os.File is a violation *)
+Definition kf02 (st : fstate) (op : fop) : option finding := None.
 
 (* ---- directory handles ----------------------------------------------------------- *)
 (* History-determined ghost state used only by the classifier: whether the end of the listing has
